@@ -142,19 +142,22 @@ impl BinaryTransform<u64, u64, u64> for Bin5 {
 type Log = RefCell<Vec<(usize, usize)>>;
 
 /// One call of the real method on a u64-valued output.
-fn call64<V, S>(m: &str, o: &mut EagerVec<V>, s: &[S], us: &[UszVec], w: usize, mf: usize, exit: &Exit, log: &Log) -> vecdb::Result<()>
+fn call64<V, S>(m: &str, o: &mut EagerVec<V>, s: &[S], us: &[UszVec], w: usize, mf: usize, exit: &Exit, log: &Log, fail: Option<usize>) -> vecdb::Result<()>
 where
     V: StoredVec<I = usize, T = u64>,
     S: ReadableVec<usize, u64>,
 {
+    // a user closure "fails" at index j by returning a wrong index: checked_push then returns
+    // Err(UnexpectedIndex), `f(self)?` leaves before the write and the values so far stay unwritten
+    let ix = |i: usize| if Some(i) == fail { i + 1 } else { i };
     match m {
-        "to" => o.compute_to(mf, s[0].len(), s[0].version(), |i| { log.borrow_mut().push((i, usize::MAX)); (i, (i * i + 3) as u64) }, exit),
-        "range" => o.compute_range(mf, &s[0], |i| { log.borrow_mut().push((i, usize::MAX)); (i, (i * i + 3) as u64) }, exit),
-        "transform" => o.compute_transform(mf, &s[0], |(i, a, this)| { log.borrow_mut().push((i, this.stored_len())); (i, a * 3 + i as u64) }, exit),
-        "transform2" => o.compute_transform2(mf, &s[0], &s[1], |(i, a, b, this)| { log.borrow_mut().push((i, this.stored_len())); (i, a * 2 + b + i as u64) }, exit),
+        "to" => o.compute_to(mf, s[0].len(), s[0].version(), |i| { log.borrow_mut().push((i, usize::MAX)); (ix(i), (i * i + 3) as u64) }, exit),
+        "range" => o.compute_range(mf, &s[0], |i| { log.borrow_mut().push((i, usize::MAX)); (ix(i), (i * i + 3) as u64) }, exit),
+        "transform" => o.compute_transform(mf, &s[0], |(i, a, this)| { log.borrow_mut().push((i, this.stored_len())); (ix(i), a * 3 + i as u64) }, exit),
+        "transform2" => o.compute_transform2(mf, &s[0], &s[1], |(i, a, b, this)| { log.borrow_mut().push((i, this.stored_len())); (ix(i), a * 2 + b + i as u64) }, exit),
         "binary" => o.compute_binary::<u64, u64, Bin5>(mf, &s[0], &s[1], exit),
-        "transform3" => o.compute_transform3(mf, &s[0], &s[1], &s[2], |(i, a, b, c, this)| { log.borrow_mut().push((i, this.stored_len())); (i, a + 2 * b + 3 * c + i as u64) }, exit),
-        "transform4" => o.compute_transform4(mf, &s[0], &s[1], &s[2], &s[3], |(i, a, b, c, d, this)| { log.borrow_mut().push((i, this.stored_len())); (i, a + 2 * b + 3 * c + 4 * d + i as u64) }, exit),
+        "transform3" => o.compute_transform3(mf, &s[0], &s[1], &s[2], |(i, a, b, c, this)| { log.borrow_mut().push((i, this.stored_len())); (ix(i), a + 2 * b + 3 * c + i as u64) }, exit),
+        "transform4" => o.compute_transform4(mf, &s[0], &s[1], &s[2], &s[3], |(i, a, b, c, d, this)| { log.borrow_mut().push((i, this.stored_len())); (ix(i), a + 2 * b + 3 * c + 4 * d + i as u64) }, exit),
         "add" => o.compute_add(mf, &s[0], &s[1], exit),
         "subtract" => o.compute_subtract(mf, &s[0], &s[1], exit),
         "multiply" => o.compute_multiply(mf, &s[0], &s[1], exit),
@@ -246,9 +249,19 @@ impl<F: Fmt> OutVec<F> {
     fn remove(self) {
         let _ = match self { OutVec::A(v) => v.remove(), OutVec::B(v) => v.remove() };
     }
+    fn pushed_len(&self) -> usize {
+        match self { OutVec::A(v) => v.pushed_len(), OutVec::B(v) => v.pushed_len() }
+    }
+    fn hand_push(&mut self, x: u64) {
+        match self { OutVec::A(v) => v.push(x), OutVec::B(v) => v.push(x as usize) }
+    }
     fn call(&mut self, m: &str, s: &[EagerVec<F::V64>], us: &[UszVec], w: usize, mf: usize, exit: &Exit, log: &Log) -> String {
+        self.call_f(m, s, us, w, mf, exit, log, None)
+    }
+    #[allow(clippy::too_many_arguments)]
+    fn call_f(&mut self, m: &str, s: &[EagerVec<F::V64>], us: &[UszVec], w: usize, mf: usize, exit: &Exit, log: &Log, fail: Option<usize>) -> String {
         let r = catch_unwind(AssertUnwindSafe(|| match self {
-            OutVec::A(o) => call64(m, o, s, us, w, mf, exit, log),
+            OutVec::A(o) => call64(m, o, s, us, w, mf, exit, log, fail),
             OutVec::B(o) => callusz(m, o, s, us, w, mf, exit, log),
         }));
         match r {
@@ -464,6 +477,9 @@ fn exec_case<F: Fmt>(id: &str, m: &MDef, own0: u32, w: usize, ops: &[&str], full
     let mut pending_lo: usize = usize::MAX; // first source index changed since the previous compute call
     let mut stale_lo: usize = usize::MAX; // smallest output index that an invalid max_from may have left stale
     let mut header_written = true; // the in-memory header has been written since it last changed
+    // the harness's own record of the version each source was last given (C19: what a source PRESENTS to its
+    // dependents must be the version recorded for it, for stored and for eager sources alike)
+    let mut given_ver: Vec<Option<u32>> = vec![None; 16];
     let mut fresh_n = 0usize;
     let semantic = m.fam == "F7" && m.name != "first_per_index";
     let mut ref_prev: Vec<u64> = vec![];
@@ -516,6 +532,7 @@ fn exec_case<F: Fmt>(id: &str, m: &MDef, own0: u32, w: usize, ops: &[&str], full
                         let ver: u32 = arg.parse().unwrap();
                         if j < m.n64 { s[j].mut_header().update_computed_version(Version::new(ver)); }
                         else { us[j - m.n64].mut_header().update_computed_version(Version::new(ver)); }
+                        if j < given_ver.len() { given_ver[j] = Some(ver); }
                     }
                 }
             }
@@ -523,10 +540,12 @@ fn exec_case<F: Fmt>(id: &str, m: &MDef, own0: u32, w: usize, ops: &[&str], full
                 let mut it = rest.split(':');
                 let mf: usize = it.next().unwrap().parse().unwrap();
                 let cap: usize = it.next().unwrap().parse().unwrap();
+                let fail: Option<usize> = it.next().map(|x| x.parse().unwrap());
                 let o = out.as_mut().unwrap();
                 vecdb::verif_hooks::MAX_CACHE_SIZE.set(if cap == 0 { INF_BYTES } else { cap * 8 });
                 let before = o.contents();
                 let cv_before = o.cv();
+                let unwritten_before = o.pushed_len();
                 if semantic {
                     let s_now: Vec<Vec<u64>> = s.iter().map(|v| v.collect()).collect();
                     let us_now: Vec<Vec<u64>> = us.iter().map(|v| v.collect().into_iter().map(|x| x as u64).collect()).collect();
@@ -538,6 +557,15 @@ fn exec_case<F: Fmt>(id: &str, m: &MDef, own0: u32, w: usize, ops: &[&str], full
                 let dep: u32 = s[..nsrc_used].iter().map(|v| u32::from(v.version())).sum::<u32>()
                     + us.iter().map(|v| u32::from(v.version())).sum::<u32>() + m.extra_ver;
                 let presented = o.vv().wrapping_add(dep);
+                for (j, g) in given_ver.iter().enumerate() {
+                    let shown = if j < m.n64 { s.get(j).map(|v| u32::from(v.version())) } else { us.get(j - m.n64).map(|v| u32::from(v.version())) };
+                    if let (Some(g), Some(shown)) = (g, shown) {
+                        if *g != shown && !cx.viol.iter().any(|v: &String| v.starts_with("C19:c19-source-presents-other-version")) {
+                            cx.viol.push(format!("C19:c19-source-presents-other-version-than-recorded source={} ({}) recorded={} presented={}: a dependent cannot see that this source was recomputed",
+                                                 j, if j < m.n64 { "stored" } else { "eager" }, g, shown));
+                        }
+                    }
+                }
                 let log: Log = RefCell::new(vec![]);
                 let res = if m.name == "first_per_index" && cap != 0 {
                     // compute_first_per_index can loop forever once a batch reaches the limit: watchdog
@@ -562,7 +590,7 @@ fn exec_case<F: Fmt>(id: &str, m: &MDef, own0: u32, w: usize, ops: &[&str], full
                         }
                     })
                 } else {
-                    o.call(m.name, &s, &us, w, mf, &exit, &log)
+                    o.call_f(m.name, &s, &us, w, mf, &exit, &log, fail)
                 };
                 vecdb::verif_hooks::MAX_CACHE_SIZE.set(INF_BYTES);
                 let after = o.contents();
@@ -590,6 +618,8 @@ fn exec_case<F: Fmt>(id: &str, m: &MDef, own0: u32, w: usize, ops: &[&str], full
                 else if mf <= stale_lo && clears { stale_lo = usize::MAX; }
                 pending_lo = usize::MAX;
                 if res != "ok" { cx.tags.push(format!("call-{}", res.split(':').next().unwrap())); }
+                if fail.is_some() && res != "ok" { cx.tags.push("closure-failed-before-write".into()); }
+                if !changed_version && unwritten_before > 0 { cx.tags.push("same-version-with-unwritten".into()); }
                 if cap != 0 && after.len() > before.len().min(mf) + cap { cx.tags.push("multi-batch".into()); }
                 if mf < before.len() && !changed_version { cx.tags.push("truncating-call".into()); }
                 if mf >= before.len() && after.len() == before.len() && !changed_version { cx.tags.push("redundant-call".into()); }
@@ -609,7 +639,7 @@ fn exec_case<F: Fmt>(id: &str, m: &MDef, own0: u32, w: usize, ops: &[&str], full
                     if after.len() < keep || after[..keep] != before[..keep] {
                         cx.viol.push(format!("C19:c19-{}-prefix-altered keep={}", m.name, keep));
                     }
-                } else if res == "ok" && m.logs {
+                } else if res == "ok" && m.logs && unwritten_before == 0 {
                     let want: Vec<usize> = (0..after.len()).collect();
                     if ev != want {
                         cx.viol.push(format!("C19:c19-{}-not-recomputed-from-0 evaluated={} len={}", m.name, ranges(&ev), after.len()));
@@ -635,13 +665,30 @@ fn exec_case<F: Fmt>(id: &str, m: &MDef, own0: u32, w: usize, ops: &[&str], full
                             }
                         }
                     }
+                    if changed_version && unwritten_before > 0 { cx.tags.push("version-change-with-unwritten".into()); }
+                    if changed_version && unwritten_before > 0 && res == "ok" && fres == "ok" && (after != fvals || (m.logs && ev != (0..after.len()).collect::<Vec<_>>())) {
+                        // the discard must also cover results that were never written (hand-pushed values, the
+                        // prefix left by a call that failed before its write)
+                        let keep = mf.min(before.len());
+                        cx.viol.push(format!("C19:c19-version-change-kept-unwritten-results method={} unwritten={} stored={} max_from={} kept-prefix={} evaluated={}",
+                            m.name, unwritten_before, before.len() - unwritten_before, mf,
+                            after.len() >= keep && after[..keep] == before[..keep], if m.logs { ranges(&ev) } else { "-".into() }));
+                    }
                     let stale_key = if changed_version && !valid { "C19:c19" } else { "C06:c06" };
-                    if res == "ok" && fres == "ok" {
+                    if !cx.viol.is_empty() {
+                        // already reported under a more specific key
+                    } else if res == "ok" && fres == "ok" {
                         if after.len() != fvals.len() {
                             cx.viol.push(format!("{stale_key}-{}-len-differs-from-scratch incremental={} scratch={}", m.name, after.len(), fvals.len()));
                         } else if after != fvals {
                             let i = (0..after.len()).find(|&i| after[i] != fvals[i]).unwrap();
                             cx.viol.push(format!("{stale_key}-{}-differs-from-scratch index={} incremental={} scratch={}", m.name, i, after[i], fvals[i]));
+                        }
+                    } else if fail.is_some() && res != "ok" && fres == "ok" {
+                        // the injected closure failure: what was computed before it must be a prefix of the scratch result
+                        let n = after.len().min(fvals.len());
+                        if after.len() > fvals.len() || after[..n] != fvals[..n] {
+                            cx.viol.push(format!("{stale_key}-{}-failed-call-prefix-differs-from-scratch", m.name));
                         }
                     } else if (res == "ok") != (fres == "ok") {
                         cx.viol.push(format!("{stale_key}-{}-outcome-differs-from-scratch incremental={} scratch={}", m.name, res, fres));
@@ -655,6 +702,15 @@ fn exec_case<F: Fmt>(id: &str, m: &MDef, own0: u32, w: usize, ops: &[&str], full
                 } else {
                     cx.tags.push("oracle-skipped-stale".into());
                 }
+            }
+            "h" => {
+                // hp:<k> — k marker values pushed by hand, no write: they are not results
+                let k: usize = rest.strip_prefix("p:").unwrap().parse().unwrap();
+                let o = out.as_mut().unwrap();
+                let len0 = o.len();
+                for j in 0..k { o.hand_push(777_000 + (len0 + j) as u64); }
+                stale_lo = stale_lo.min(len0);
+                cx.tags.push("hand-push".into());
             }
             "W" => {
                 let o = out.as_mut().unwrap();
@@ -1027,6 +1083,48 @@ fn gen_case(rng: &mut Rng, case_no: u64, only: Option<&str>, c19: bool, large_pc
     // first_per_index is compared against its from-scratch model only: valid histories only
     let malformed = rng.chance(15, 100) && cfg!(debug_assertions) && m.name != "first_per_index";
     let big = rng.chance(1, 6);
+    // ---- ~10% of the cases start with results that exist ONLY in the pushed buffer (stored_len == 0):
+    // values pushed by hand, or the prefix left by a user closure that failed before the write; on a
+    // fresh vector or after a truncation to 0; followed by a version change (2/3) and a call with max_from > 0
+    if !f7 && rng.chance(10, 100) {
+        let append_all = |rng: &mut Rng, st: &mut GenState, ops: &mut Vec<String>, n: usize| {
+            for j in 0..ns {
+                let from = st.src[j].len();
+                let mut vals = vec![];
+                for i in from..from + n {
+                    let v = gen_value(rng, m, st, j, i, small);
+                    st.src[j].push(v);
+                    vals.push(v.to_string());
+                }
+                ops.push(format!("A{j}:{}", vals.join(",")));
+            }
+        };
+        if rng.chance(1, 2) {
+            // computed once, then emptied by a truncation of the sources to 0: the version stays recorded
+            let n0 = rng.range(2, 9) as usize;
+            append_all(rng, &mut st, &mut ops, n0);
+            ops.push(format!("C0:{}", rng.pick(&CAPS)));
+            for j in 0..ns { st.src[j].clear(); ops.push(format!("T{j}:0")); }
+            ops.push("C0:0".into());
+        }
+        let n = rng.range(3, 14) as usize;
+        append_all(rng, &mut st, &mut ops, n);
+        if m.logs && rng.chance(2, 3) {
+            ops.push(format!("C0:{}:{}", rng.pick(&[0usize, 64]), rng.range(1, n as u64 - 1)));
+        } else {
+            ops.push(format!("hp:{}", rng.range(1, n as u64 + 2)));
+        }
+        if rng.chance(2, 3) {
+            let j = rng.below(ns as u64) as usize;
+            st.ver[j] = rng.range(2, 9) as u32;
+            ops.push(format!("V{j}:{}", st.ver[j]));
+        }
+        let mf = match rng.below(5) { 0 => 1, 1 => rng.range(1, n as u64 + 3) as usize, 2 => n, 3 => usize::MAX, _ => rng.range(1, n as u64) as usize };
+        ops.push(format!("C{mf}:{}", rng.pick(&CAPS)));
+        if rng.chance(1, 4) { ops.push("R".into()); }
+        out_len_guess = n;
+        pending_lo = usize::MAX;
+    }
     for round in 0..nrounds {
         // ---- source changes of this round
         let truncate_round = round > 0 && rng.chance(35, 100) && !f7;
